@@ -63,4 +63,24 @@ CHECKS["C03"] = dict(
     assumptions=["H diagonal (documented precondition)", "finite inputs"],
     runs=[run("c03", "c03.cpp", shards=8), run("c03_asan", "c03.cpp", "asan", args=["--reduced"])],
 )
+
+CHECKS["C11"] = dict(
+    level=E,
+    rule="d=2..6; every spectrum in {0,1,2,4}^d (all degeneracy patterns) plus an incommensurate and a tiny (1e-6) spectrum; averaging PrepareEvolve over t x scale in {0,.37,1.21,3.3,1e9,-1.21}; "
+         "LowPassFilter and AvgRampFilter over cutoff x ramp in {0,.1,.5c,c,1.5c,-.25c} (x t for the phase filter) started from a buffer of ones; interval PrepareEvolve over four intervals. "
+         "Pair order recovered from the library's own unaveraged table on an incommensurate spectrum. Oracle: exact threshold sets, multipliers 1/ramp/0, closed-form interval average, finiteness. "
+         "threshold ties (|phase|==|scale| up to 1e-12) are skipped and counted. non-trivial = non-zero spectrum; distinct by (spectrum, parameters)",
+    assumptions=["H diagonal", "finite inputs", "exact ties at a hard threshold are not decided"],
+    runs=[run("c11", "c11.cpp", shards=8), run("c11_asan", "c11.cpp", "asan", args=["--reduced"])],
+)
+
+CHECKS["C06"] = dict(
+    level=E,
+    rule="all 35 (d,i,j) plane-rotation kernels x (theta,delta) in a 9x9 angle grid (quick: 4x4 for d=5,6) x (all basis vectors + 3 probes); mixing matrices for parameter sets "
+         "{all zero, every single pair x 4x4 angles/phases, three all-pairs-distinct assignments} in every d: unitarity, RotateToB1/B0, B0(B1)=id, Rotate(U), UTransform(U), UDaggerTransform(U), "
+         "both WeightedRotation overloads, scalar product and identity component; parameter store: all index pairs 0..8 for angle/phase/energy difference set+get. "
+         "Oracle: dense R^dagger A R, U^dagger A U, U A U^dagger with the U the library returns. non-trivial = non-zero angle / non-zero parameter set",
+    assumptions=["product order of the mixing matrix is taken from the library (the statement fixes unitarity and mutual consistency only)", "i<j for plane rotations"],
+    runs=[run("c06", "c06.cpp", shards=8), run("c06_asan", "c06.cpp", "asan", args=["--reduced"])],
+)
 NOT_APPLICABLE = {}
